@@ -9,6 +9,7 @@
 From Coq Require Import Permutation.
 From ACV Require Import Base.Strs Model.Graph Model.PathGrammar Model.PathSem Model.Dnf Model.Rules Model.TemplatesRef.
 From ACV Require Import Proofs.DnfProofs Proofs.DnfFuel Proofs.RulesProofs Extracted.Templates.
+From ACV Require Import Model.Report Model.Engine Model.Yaml Model.ProfileParser Proofs.TextSemantics.
 
 (* ties: the snippets whose meaning Rules.Fpos / Rules.Fneg / Dnf.fires transcribe *)
 Theorem C01_tie_atom_templates :
@@ -44,6 +45,23 @@ Proof. exact validation_reports_iff. Qed.
 Theorem C01_results : forall g cls f, wf_form f = true ->
   forall n, In n (validation_results g cls f) <-> (In n g /\ has_type n cls = true /\ lsat g true f (nid n) = false).
 Proof. exact results_exactly. Qed.
+(* ... and from the profile TEXT: for a YAML tree the parser model accepts, the verdict holds (level, validation, focus,
+   message) exactly for the listed validations and the instances of their target class on which the parsed formula fails
+   - the classical formula where the complementarity condition holds *)
+Theorem C01_from_text : forall defaults doc g v, verdict defaults doc g = POk v ->
+  exists p, parse_profile defaults doc = POk p /\
+  forall l nm fo msg,
+    In (l, nm, fo, msg) v <->
+    exists d n, In (l, nm) (p_listed p) /\ find_def p nm = Some d /\ msg = v_msg d /\
+                In n g /\ nid n = fo /\ has_type n (v_class d) = true /\ lsat g true (v_form d) fo = false.
+Proof. exact verdict_from_text. Qed.
+Theorem C01_from_text_classical : forall defaults doc g v, verdict defaults doc g = POk v ->
+  exists p, parse_profile defaults doc = POk p /\
+  forall l nm fo d, In (l, nm) (p_listed p) -> find_def p nm = Some d -> compl_ok g true (v_form d) fo = true ->
+    (In (l, nm, fo, v_msg d) v <->
+     exists n, In n g /\ nid n = fo /\ has_type n (v_class d) = true /\ csat g (v_form d) fo = false).
+Proof. exact verdict_from_text_classical. Qed.
+
 Theorem C01_counts_complementary : forall g q p k n, atom_compl g (ACount q p k) n = true.
 Proof. exact count_complementary. Qed.
 
@@ -101,6 +119,8 @@ Print Assumptions C01_literal.
 Print Assumptions C01_classical.
 Print Assumptions C01_iff.
 Print Assumptions C01_results.
+Print Assumptions C01_from_text.
+Print Assumptions C01_from_text_classical.
 Print Assumptions C01_counts_complementary.
 Print Assumptions C01_spelling.
 Print Assumptions C01_rewritings.
